@@ -80,11 +80,11 @@ func (ct *cthread) yield(label string) {
 
 type cevt interface{ val() int }
 type CT1 struct{ V int }
-type CT2 struct{ V int }
+type CT36 struct{ V int } // main.CT36 hashes to the same registry shard as main.CT1
 type CT9 struct{ V int }
 
 func (e CT1) val() int { return e.V }
-func (e CT2) val() int { return e.V }
+func (e CT36) val() int { return e.V }
 func (e CT9) val() int { return e.V }
 
 func (cc *concCase) publishTy(ctx context.Context, ty, v int) {
@@ -92,7 +92,7 @@ func (cc *concCase) publishTy(ctx context.Context, ty, v int) {
 	case 1:
 		eb.PublishContext(cc.bus, ctx, CT1{v})
 	case 2:
-		eb.PublishContext(cc.bus, ctx, CT2{v})
+		eb.PublishContext(cc.bus, ctx, CT36{v})
 	default:
 		eb.PublishContext(cc.bus, ctx, CT9{v})
 	}
@@ -144,13 +144,13 @@ func concSubscribe[T cevt](cc *concCase, ty, hid int, once, async, seq bool, fm,
 	cc.mu.Unlock()
 	var opts []eb.SubscribeOption
 	if once {
-		opts = append(opts, eb.Once())
+		opts = append(opts, sharedOnce) // option values reused across subscriptions, see bus.go
 	}
 	if async {
-		opts = append(opts, eb.Async())
+		opts = append(opts, sharedAsync)
 	}
 	if seq {
-		opts = append(opts, eb.Sequential())
+		opts = append(opts, sharedSequential)
 	}
 	if fm > 0 {
 		opts = append(opts, eb.WithFilter(func(e T) bool {
@@ -213,7 +213,7 @@ func (cc *concCase) runOp(ct *cthread, f []string) {
 		case 1:
 			concSubscribe[CT1](cc, ty, hid, f[3] == "1", f[4] == "1", f[5] == "1", fm, fr, body)
 		case 2:
-			concSubscribe[CT2](cc, ty, hid, f[3] == "1", f[4] == "1", f[5] == "1", fm, fr, body)
+			concSubscribe[CT36](cc, ty, hid, f[3] == "1", f[4] == "1", f[5] == "1", fm, fr, body)
 		default:
 			concSubscribe[CT9](cc, ty, hid, f[3] == "1", f[4] == "1", f[5] == "1", fm, fr, body)
 		}
@@ -224,7 +224,7 @@ func (cc *concCase) runOp(ct *cthread, f []string) {
 		case 1:
 			err = concUnsub[CT1](cc, ty, hid)
 		case 2:
-			err = concUnsub[CT2](cc, ty, hid)
+			err = concUnsub[CT36](cc, ty, hid)
 		default:
 			err = concUnsub[CT9](cc, ty, hid)
 		}
@@ -234,7 +234,7 @@ func (cc *concCase) runOp(ct *cthread, f []string) {
 		case 1:
 			eb.Clear[CT1](cc.bus)
 		case 2:
-			eb.Clear[CT2](cc.bus)
+			eb.Clear[CT36](cc.bus)
 		default:
 			eb.Clear[CT9](cc.bus)
 		}
@@ -254,7 +254,7 @@ func (cc *concCase) runOp(ct *cthread, f []string) {
 		case 1:
 			n = eb.HandlerCount[CT1](cc.bus)
 		case 2:
-			n = eb.HandlerCount[CT2](cc.bus)
+			n = eb.HandlerCount[CT36](cc.bus)
 		default:
 			n = eb.HandlerCount[CT9](cc.bus)
 		}
